@@ -535,7 +535,7 @@ pub fn check(tier: &str, budget_s: f64, report: &mut Report) {
         let results: std::sync::Mutex<Vec<(usize, String)>> = std::sync::Mutex::new(Vec::new());
         let crashed: std::sync::Mutex<Vec<(usize, usize, String)>> = std::sync::Mutex::new(Vec::new());
         let run_range = |lo: usize, hi: usize| -> (Vec<(usize, String)>, Option<String>) {
-            let out = std::process::Command::new(&exe)
+            let out = crate::util::child_command(&exe)
                 .args(["c17-worker", dir.to_str().unwrap(), &bi.to_string(), &lo.to_string(), &hi.to_string(), if thorough { "1" } else { "0" }])
                 .stderr(std::process::Stdio::null())
                 .output()
